@@ -375,12 +375,44 @@ func runC02(c *fw.Ctx) {
 		}
 		c.Bound(store+"_sequence_depth", depth)
 	}
+	// Part D: payloads larger than any buffer the transport or the handlers use (300 KiB, patterned so that a
+	// repeated or dropped block shows), by every protocol, in 256 KiB + rest chunks, gzip-compressed, then
+	// overwritten by a shorter object
+	large := make([]byte, 300*1024+17)
+	for i := range large {
+		large[i] = byte(i*31 + i/251 + i/65536)
+	}
+	n := len(large)
+	for _, store := range stores {
+		for _, gzi := range []bool{false, true} {
+			ups := []GOp{
+				{Kind: "Upload", Proto: "media", Bucket: "b1", Name: "big/o", Data: large, Meta: gcs.ObjMeta{ContentType: "application/octet-stream"}, Gzip: gzi},
+				{Kind: "Upload", Proto: "multipart", Bucket: "b1", Name: "big/o", Data: large, Meta: gcs.ObjMeta{ContentType: "application/octet-stream", Md5Hash: gcs.MD5b64(large)}, Gzip: gzi},
+				{Kind: "Upload", Proto: "resumable", Bucket: "b1", Name: "big/o", Data: large, Meta: gcs.ObjMeta{ContentType: "application/octet-stream"}, Gzip: gzi},
+				{Kind: "Upload", Proto: "resumable", Bucket: "b1", Name: "big/o", Data: large, Meta: gcs.ObjMeta{ContentType: "application/octet-stream"}, Gzip: gzi,
+					Chunks: []GChunk{{Lo: 0, Hi: 262144, Total: -1}, {Lo: 262144, Hi: n, Total: n}}},
+				{Kind: "Upload", Proto: "resumable", Bucket: "b1", Name: "big/o", Data: large, Meta: gcs.ObjMeta{ContentType: "application/octet-stream"}, Gzip: gzi,
+					Chunks: []GChunk{{Lo: 0, Hi: 262144, Total: n}, {Query: true, Total: n}, {Lo: 262144, Hi: n, Total: n}}},
+			}
+			for _, up := range ups {
+				item++
+				if !c.Mine(item) {
+					continue
+				}
+				ops := append(append([]GOp(nil), setup...), up,
+					GOp{Kind: "Upload", Proto: "media", Bucket: "b1", Name: "big/o", Data: []byte("short"), Meta: gcs.ObjMeta{ContentType: "text/plain"}})
+				if ok, _ := tryGCS(c, "C02", gcsCase{Store: store, Ops: ops}, c02Tag); ok {
+					c.Outcome("large:" + up.Proto)
+				}
+			}
+		}
+	}
 	c.Bound("names", c02Names)
 	c.Bound("payload_sizes", func() []int {
 		var s []int
 		for _, p := range payloads {
 			s = append(s, len(p))
 		}
-		return s
+		return append(s, len(large))
 	}())
 }
